@@ -84,6 +84,11 @@ def minmax_scale(vals: np.ndarray,
         max_val = np.nanmax(vals)
 
     if mode == 'do':
+        if max_val == min_val:
+            # A null range (e.g. identical values and no minimum range requested): there is nothing
+            # to spread over [0, 1]. Map everything onto 0 (NaNs remain NaNs) instead of dividing
+            # by 0, which would turn every value into a NaN.
+            return (vals-min_val) * 0
         return (vals-min_val)/(max_val-min_val)
 
     if mode == 'undo':
